@@ -42,6 +42,12 @@ func (k *KeepAlive) sendKeepAlive() {
 	conns := k.context.ActiveConnections()
 	var empty = new(bytes.Buffer)
 	for _, conn := range conns {
+		// Only verified connections get notifications. A connection which is in the middle
+		// of pair verify must not see anything between its request and the response.
+		if sess := k.context.GetSessionForConnection(conn); sess == nil || sess.Encrypter() == nil {
+			continue
+		}
+
 		resp := NewNotification(empty)
 
 		var buffer = new(bytes.Buffer)
